@@ -230,3 +230,46 @@ def h6(ctx):
 
 
 RULES.append(h6)
+
+
+@rule("H7", doc="b[x := t]: the three parts are instantiated from the same substitution and handed to the substitution method in order; both methods substitute in a term of b")
+def h7(ctx):
+    crate = ctx.lib()
+    ps = crate.free_fn("pattern_subst")
+    if len(ps) != 1:
+        raise mir.AnchorMissing("pattern_subst")
+    p = ps[0]
+    sub = [c for c in p.calls if c.callee and c.callee.name == "subst" and (c.callee.trait or "").endswith("SubstMethod") and not p.blocks[c.bb]["cleanup"]]
+    if not ctx.floor("SubstMethod::subst call sites in pattern_subst", len(sub), 1):
+        return
+    for c in sub:
+        parts = [strip_role(p.role_of_operand(a)) for a in c.args[1:4]]
+        ok = all(r[0] == "call" and r[1] == "pattern_subst" for r in parts)
+        srcs = []
+        if ok:
+            for r in parts:
+                srcs.append(role_str(r[3][1]))
+                ok = ok and strip_role(r[3][2]) == ("param", "subst")
+        order_ok = ok and len(set(srcs)) == 3 and [s for s in srcs] == sorted(srcs, key=lambda s: int(s.split(".")[-1]) if s.split(".")[-1].isdigit() else 0)
+        ctx.check(ok, "parts-from-same-substitution", "b, x and t are each pattern_subst(.., subst) of the three sub-patterns", "the parts of b[x := t] are %s" % [role_str(r)[:50] for r in parts], where_of(p, c.bb))
+        ctx.check(order_ok, "parts-in-order", "subst(b, x, t) receives the instantiations of Subst.0, Subst.1, Subst.2 in that order", "b[x := t] hands its parts to the substitution method as %s" % srcs, where_of(p, c.bb))
+    # the method is put back
+    st = [bi for bi, si, s in p.statements() if s["k"] == "assign" and mir.place_has_field(s["lhs"], C.EGRAPH, "subst_method")]
+    tk = [c for c in p.calls if c.callee and c.callee.name == "take" and role_mentions_field(p.role_of_operand(c.args[0]), "subst_method")]
+    ok = bool(st) and bool(tk) and all(p.must_pass(p.after(c.bb), p.return_blocks(), st) for c in sub)
+    ctx.check(ok, "method-restored", "the substitution method taken out of the e-graph is put back on every path", "pattern_subst can return without restoring EGraph.subst_method (the next b[x := t] panics)", where_of(p))
+    dts = crate.free_fn("do_term_subst")
+    impls = [b for b in crate.by_name.get("subst", []) if (b.impl_trait or "").endswith("SubstMethod")]
+    ctx.floor("SubstMethod impls", len(impls), 2)
+    for b in impls:
+        cs = [c for c in b.calls if dts and c.callee and c.callee.target == dts[0].id]
+        ok = len(cs) == 1
+        if ok:
+            a = [strip_role(b.role_of_operand(x)) for x in cs[0].args]
+            term = b.role_of_operand(cs[0].args[1])
+            ok = a[2] == ("param", "x") and a[3] == ("param", "t") and role_mentions_param(term, "b") and not role_mentions_param(term, "x") and not role_mentions_param(term, "t")
+        ctx.check(ok, "method:" + (b.impl_self or "?").split("::")[-1], "%s substitutes x by t in a term of b" % (b.impl_self or "?").split("::")[-1],
+                  "%s::subst does not call do_term_subst(eg, <term of b>, x, t)" % (b.impl_self or "?"), where_of(b))
+
+
+RULES.append(h7)
